@@ -11,7 +11,8 @@ ASSUMPTIONS = [
     "labels: all tuples of <=3 (quick) / <=4 (thorough) labels from an 15-label alphabet (flat names, nested paths, suffix/prefix clashes, a generated unit-operation name 'O1', "
     "a path through it, an untrimmed name, the root name) x {distinct, duplicate, clashing with a generated key (S, S, S_1 in every order of supply temperatures)} stream names x 6 zone-tree forms",
     "every input stream carries a unique duty, which is how a Stream object found in a zone is traced back to its input",
-    "with a user zone tree only labels that resolve to exactly one node of the tree (full path, root-relative path or unique path suffix) are enumerated",
+    "with a user zone tree, labels that resolve to no node or to several nodes of the tree (full path, root-relative path or path suffix) are enumerated in sets of <=2 labels; "
+    "the root's own name as a label (a new process zone is created for it) in all sets",
 ]
 LABELS = ["A", "B", "A/B", "B/A", "A/A", "B/C", "A/B/C", "O1", "A/O1", " A ", "Site", "Site/A", " A / B", "A//B", "B/C/"]
 TREES = {
@@ -41,13 +42,18 @@ def tree_paths(tree):
     return out
 
 
-def resolve(tree, label):
-    """Unique node a label denotes in a user tree (None if none or ambiguous)."""
+def candidates(tree, label):
+    """Nodes a label can denote in a user tree: the full path if it is one, else every node whose path ends with the label's components."""
     comps = tuple(c.strip() for c in label.split("/") if c.strip())
     paths = tree_paths(tree)
     if comps in paths:
-        return comps
-    cands = [p for p in paths if len(p) >= len(comps) and p[-len(comps):] == comps]
+        return [comps]
+    return [p for p in paths if len(p) >= len(comps) and p[-len(comps):] == comps]
+
+
+def resolve(tree, label):
+    """Unique node a label denotes in a user tree (None if none or ambiguous)."""
+    cands = candidates(tree, label)
     return cands[0] if len(cands) == 1 else None
 
 
@@ -60,10 +66,8 @@ def cases(tier, inst):
                     continue
                 if list(labs) != sorted(labs):
                     continue          # order of listing is C12's business; multisets of labels here
-                if tname != "none":
-                    tree = TREES[tname]
-                    if any(resolve(tree, LABELS[i]) is None or LABELS[i] == "Site" for i in labs):
-                        continue
+                if tname != "none" and n > 2 and any(resolve(TREES[tname], LABELS[i]) is None for i in labs):
+                    continue          # labels the tree does not know, or knows twice: in sets of <=2 labels only
                 for dup in (False, True):
                     if dup and n == 1:
                         continue
@@ -199,8 +203,11 @@ def cls(case, i):
     labs = case["labels"]
     me = labs[i]
     if case["tree"] != "none":
+        cands = candidates(TREES[case["tree"]], me)
+        if len(cands) != 1 and me.strip() != "Site":
+            return "label-matches-no-zone-of-the-user-tree" if not cands else "label-matches-several-zones-of-the-user-tree"
         node = resolve(TREES[case["tree"]], me)
-        if node is not None and any(len(p) > len(node) and p[: len(node)] == node for p in tree_paths(TREES[case["tree"]])):
+        if node is not None and me.strip() != "Site" and any(len(p) > len(node) and p[: len(node)] == node for p in tree_paths(TREES[case["tree"]])):
             return "placed-in-zone-with-subzones"
         return "general:tree=" + case["tree"]
     mine = tuple(c.strip() for c in me.split("/") if c.strip()) if "/" in me else (me,)
